@@ -32,6 +32,13 @@ MetConfigs ==
       f \in MetFmts \ {"wind"}, g \in { <<1, 1, 1>>, <<2, 1, 2>>, <<2, 2, 1>>, <<3, 2, 2>>, <<1, 2, 3>> },
       nt \in 1..3, st \in { <<1999, 365, 22>>, <<2000, 59, 23>>, <<2011, 1, 0>> } }
   \cup
+  \* steps of 24 hours: consecutive steps carry the same hour on different dates
+  \* (the headerless formats find the step boundaries by comparing stamps)
+  { [fmt |-> f, spc |-> <<>>, nx |-> g[1], ny |-> g[2], nz |-> g[3], nt |-> nt,
+     year |-> st[1], jjj |-> st[2], hour |-> st[3], h24 |-> FALSE, hdr3 |-> TRUE, lstag |-> 0, nv |-> 0, dth |-> 24] :
+      f \in MetFmts \ {"wind"}, g \in { <<2, 1, 2>>, <<1, 2, 3>> },
+      nt \in 2..3, st \in { <<1999, 364, 12>>, <<2011, 1, 0>> } }
+  \cup
   \* wind: the slab records carry no time stamp, so the readers tell the
   \* records of a step apart by their sizes: a slab must not have the size of
   \* the time record (2 or 3 words) or of the dummy record (1 word), hence
